@@ -73,6 +73,7 @@ type c03state struct {
 	lastMatch    bool
 	init         bool
 	exitReplicas map[int]int // workload size when the step was reported upgraded
+	scaledSince  bool        // the user changed the workload size since the current step was reported upgraded
 }
 
 func networkKind(k string) bool {
@@ -93,6 +94,9 @@ func (s *Set) c03(w *simapi.Write, v *simapi.View) {
 	}
 	st := &s.st03
 	defer func() { st.lastShare, st.lastMatch, st.init = cr.Share, cr.Match, true }()
+	if w.Actor == "user" && w.Key == s.S.WorkloadKey() && w.Before != nil && w.After != nil && simapi.IntD(w.Before, "spec.replicas", 1) != simapi.IntD(w.After, "spec.replicas", 1) {
+		st.scaledSince = true
+	}
 	if !st.init {
 		return
 	}
@@ -106,6 +110,12 @@ func (s *Set) c03(w *simapi.Write, v *simapi.View) {
 		// followed up by the BatchRelease controller and is not a reason to withhold the rule (reading chosen)
 		if r0, ok := st.exitReplicas[s.step]; ok && r0 < R {
 			R = r0
+		}
+		if st.scaledSince {
+			// which pods survive a user's scale-down, and how fast a scale-up is followed, is up to the workload
+			// controller; the step's pods were reported ready before the resize
+			s.count("c03_obs_raises_after_user_scale_not_judged", 1)
+			return
 		}
 		need := 0
 		if stp != nil {
@@ -155,6 +165,32 @@ func (s *Set) c03(w *simapi.Write, v *simapi.View) {
 	}
 }
 
+// c03FirstExposure is clause (c): when the first step configures traffic, the stable Service is pinned to the stable
+// revision before that step's pods are created (= at the first write that raises exposure from 0 in step 1).
+func (s *Set) c03FirstExposure(w *simapi.Write, v *simapi.View, R int) {
+	if !s.S.HasTraffic() || s.canary == s.stable || s.step != 1 || !s.inRolling() {
+		return
+	}
+	stp := s.stepSpec(1)
+	_, hasW, hasM := stepTraffic(stp)
+	if !hasW && !hasM {
+		return
+	}
+	// documented exception: a real-partition step that replaces every stable pod restores the stable Service instead
+	need, _ := interp.Planned(simapi.Path(stp, "replicas"), R)
+	if s.isRealPartitionStyle() && need >= R {
+		return
+	}
+	svc := v.Get("Service", s.ns, s.stable)
+	if svc == nil {
+		return
+	}
+	s.count("c03_first_exposure_pin_checks", 1)
+	if interp.Pinned(svc, interp.RevisionKeys...) == "" {
+		s.violate("C03", fmt.Sprintf("c03:first-step-pods-created-before-stable-service-pinned:%s/%s", s.S.Kind, s.S.Style), fmt.Sprintf("%s raised the new-revision target of %s for step 1 (which configures traffic) while the stable Service %s is not pinned to the stable revision: %v", w.Actor, w.Key, s.stable, simapi.StrMap(svc, "spec.selector")), w, nil)
+	}
+}
+
 // ---- C01: exposure bound and monotonicity ---------------------------------------------------------------------
 
 type c01state struct {
@@ -198,6 +234,9 @@ func (s *Set) c01(w *simapi.Write, v *simapi.View) {
 	}
 	if workloadImage(wl) == s.stableImg {
 		return // rollback epoch: "new revision" is the old stable one; only the BatchRelease clauses apply (C11)
+	}
+	if exp > st.lastExp && st.lastExp == 0 {
+		s.c03FirstExposure(w, v, R)
 	}
 	switch {
 	case exp > st.lastExp:
